@@ -88,6 +88,7 @@ func Main(c *Check, args []string) int {
 	only := fs.String("scenario", "", "run only scenarios whose name contains this")
 	budget := fs.Int("budget", 0, "wall-clock budget in seconds (0: tier default)")
 	procs := fs.Int("procs", 0, "worker processes (0: number of CPUs)")
+	auxFile := fs.String("aux", "", "JSON file with the result of an auxiliary pass (merged into the evidence; its violations are reported)")
 	selftest := fs.Bool("selftest", false, "compare the outcome sets with and without state-key pruning (use with --scenario)")
 	_ = fs.Parse(args)
 	if *tier != "thorough" {
@@ -121,7 +122,22 @@ func Main(c *Check, args []string) int {
 	if *worker != "" {
 		return doWorker(c, scens, *worker, *budget)
 	}
+	auxPath = *auxFile
 	return doParent(c, scens, *tier, *budget, *procs, args)
+}
+
+var auxPath string
+
+// Aux is the result of an auxiliary pass run by ./check before the exhaustive part.
+type Aux struct {
+	Name       string `json:"name"`
+	Ran        bool   `json:"ran"`
+	Detail     string `json:"detail"`
+	Violations []struct {
+		Sig string `json:"sig"`
+		Msg string `json:"msg"`
+		Log string `json:"log"`
+	} `json:"violations"`
 }
 
 func envOr(k, d string) string {
@@ -278,7 +294,8 @@ func doParent(c *Check, scens []Scenario, tier string, budget, procs int, args [
 			})
 		}
 		if len(samples) < 4 && len(r.Samples) > 0 {
-			samples = append(samples, map[string]any{"scenario": r.Name, "execution": r.Samples[0]})
+			// prefer an execution that is not the all-default schedule
+			samples = append(samples, map[string]any{"scenario": r.Name, "execution": r.Samples[len(r.Samples)-1]})
 		}
 		perScen = append(perScen, map[string]any{"name": r.Name, "executions": r.Stats.Executions, "states": r.Stats.States,
 			"outcomes": r.Stats.Outcomes, "exhaustive": r.Stats.Exhaustive, "wall_s": r.WallS})
@@ -294,15 +311,32 @@ func doParent(c *Check, scens []Scenario, tier string, budget, procs int, args [
 		Coverage: ev.Coverage{
 			"states": states, "transitions": trans, "traces_validated_against_impl": execs,
 			"evaluations": execs, "distinct_nontrivial": outcomes,
-			"rule":        c.Rule + " Every execution is a run of the real, instrumented implementation under the controlled scheduler; distinct_nontrivial counts distinct observation digests (per-thread logs + outcome) among completed executions, summed over scenarios.",
-			"samples":     samples,
-			"exhaustive":  exhaustive,
-			"scenarios":   len(scens), "executions_completed": completed, "executions_pruned_at_visited_state": pruned,
+			"rule":       c.Rule + " Every execution is a run of the real, instrumented implementation under the controlled scheduler; distinct_nontrivial counts distinct observation digests (per-thread logs + outcome) among completed executions, summed over scenarios.",
+			"samples":    samples,
+			"exhaustive": exhaustive,
+			"scenarios":  len(scens), "executions_completed": completed, "executions_pruned_at_visited_state": pruned,
 			"max_choice_depth": maxDepth, "alternatives_cut_by_bound": boundHits, "outcomes": byOutcome,
 			"budget_s": budget, "per_scenario": perScen,
 		}}
 	if states == 0 {
 		e.Coverage["states"] = execs // without pruning every execution is its own path of states
+	}
+	if auxPath != "" {
+		var aux Aux
+		if b, err := os.ReadFile(auxPath); err == nil && json.Unmarshal(b, &aux) == nil {
+			e.Coverage["auxiliary_pass"] = map[string]any{"name": aux.Name, "ran": aux.Ran, "detail": aux.Detail, "violations": len(aux.Violations),
+				"note": "auxiliary, free-running (sampling): it can only add alarms for real data races; the deciding step is the exhaustive exploration above"}
+			for _, v := range aux.Violations {
+				v := v
+				rep.Add(v.Sig, v.Msg, func() string {
+					return ev.WriteReplay(c.ID, "aux-"+aux.Name, map[string]any{"property": c.ID, "auxiliary_pass": aux.Name, "violation": v.Msg, "log": v.Log,
+						"how_to_replay": "cd /verif && . ./env.sh && go test -race -count=1 ./racepass/"})
+				})
+			}
+			e.Violations = len(rep.Violations)
+		} else {
+			infra = append(infra, "auxiliary pass result unreadable: "+auxPath)
+		}
 	}
 	if err := e.Write(); err != nil {
 		infra = append(infra, "evidence: "+err.Error())
@@ -392,7 +426,6 @@ func NormSig(r *vrt.Result, msg string) string {
 	}
 	return sig
 }
-
 
 // doSelfTest validates state-key pruning: the set of distinct outcome summaries of a scenario must be the
 // same whether or not executions are cut at visited states.
